@@ -102,7 +102,30 @@ func (c *Chain) DepositForkEpisode() {
 		}
 	}
 	c.Rec.Comment("deposit fork: back on the main chain at " + c.StID)
-	// main chain: another key for the same validator index, then its top-up (adjacent deposits: same block)
+	// main chain, first: a deposit for the SIDE branch's key KB (the shared pubkey cache knows it, the main registry does not)
+	// whose proof of possession does not fit its data — the valid signature of KB's own deposit copied onto other withdrawal
+	// credentials (or another amount). process_deposit must skip it: no validator, whatever a cache contains.
+	if side.ValCount() > index {
+		gb := side.depositors[PubOf(kb)]
+		good := DepositDataFor(sp, c.BLS, PubOf(kb), gb.Credentials(), sp.MAX_EFFECTIVE_BALANCE, kb)
+		bad := good
+		thief := GenVal{Key: kb, Addr: addrOf(StrayKeyBase + kb)}
+		if c.Rng.Bool() {
+			bad.WithdrawalCredentials = thief.Credentials()
+			c.Stats.Inc("deposit_fork_foreign_pop_other_credentials")
+		} else {
+			bad.Amount = sp.MAX_EFFECTIVE_BALANCE - sp.EFFECTIVE_BALANCE_INCREMENT
+			thief = gb
+			c.Stats.Inc("deposit_fork_foreign_pop_other_amount")
+		}
+		c.QueueDeposit(bad)
+		// (only a defective implementation registers it: keep the bookkeeping able to follow that chain too)
+		thief.Balance = bad.Amount
+		c.depositors[PubOf(kb)] = thief
+		c.Stats.Add("deposits_queued", 1)
+		c.Vars["depfork_badpop"] = 1
+	}
+	// then another key for the same validator index, then its top-up (adjacent deposits: same block)
 	ka := c.NewDepositor(sp.MAX_EFFECTIVE_BALANCE, c.Rng.Bool())
 	c.queueTopUpForKey(ka, sp.MIN_DEPOSIT_AMOUNT+sp.EFFECTIVE_BALANCE_INCREMENT/4)
 	c.Stats.Add("deposits_queued", 2)
